@@ -56,6 +56,24 @@ func init() {
 			fv.used("lo.Range(n) = [0..n) in a fresh slice")
 			return true
 		},
+		"github.com/samber/lo.Contains": func(fv *FV, st *State, ins ssa.CallInstruction, v ssa.Value, callee *ssa.Function, args []string) bool {
+			cc := ins.Common()
+			sl, ok := cc.Args[0].Type().Underlying().(*types.Slice)
+			if !ok {
+				return false
+			}
+			if _, isSt := sl.Elem().Underlying().(*types.Struct); isSt {
+				return false
+			}
+			f := fv.elemFam(sl.Elem())
+			q := fv.fresh("q!i")
+			c := fv.freshConst("contains", "Bool")
+			body := and(sx("<=", "0", q), sx("<", q, sx("s-len", args[0])), eq(fv.read(st, f, sx("s-base", args[0]), sx("+", sx("s-off", args[0]), q)), args[1]))
+			fv.assume(st, eq(c, fmt.Sprintf("(exists ((%s Int)) %s)", q, body)))
+			fv.setVal(v, c)
+			fv.used("lo.Contains(s, x) = exists i. s[i] == x")
+			return true
+		},
 		"errors.New":  modelNewError,
 		"fmt.Errorf":  modelNewError,
 		"fmt.Sprintf": modelFreshString,
